@@ -205,9 +205,17 @@ def check_query(q, rows, zdir, today, rec, text=None):
             # a header without content is fine only as an inner node of an expected path
             if not any(g[:len([x for x in p if x is not None])] for g in groups):
                 pass
+    hidden = {}
     for p, rs in groups.items():
         got = leaves.get(p)
         want = entries_of(sel, rs)
+        if sel["k"] != "note" and "" in want:
+            # an empty value (a property left empty) prints as an empty line, which the listing format cannot
+            # show next to its blank separators; count(x) does count it
+            rec.label("empty-value-in-selection")
+            hidden[p] = 1
+            if not sel["count"]:
+                want = [w for w in want if w != ""]
         if got is None and not want and not sel["count"]:
             continue  # a group without header and without values prints nothing
         if got is None:
@@ -246,7 +254,7 @@ def check_query(q, rows, zdir, today, rec, text=None):
             if sel["k"] == "file" and got != sorted(got):
                 fail("values-not-sorted", f"group {p}: {got}")
     nkeys = len({order_key(keys, r) for r in M})
-    return {"matched": len(M), "groups": len(groups), "nkeys": nkeys, "out": out, "leaves": leaves}
+    return {"matched": len(M), "groups": len(groups), "nkeys": nkeys, "out": out, "leaves": leaves, "hidden": hidden}
 
 
 def check(case, rec: Rec) -> None:
@@ -295,9 +303,9 @@ def check(case, rec: Rec) -> None:
                 q2 = dict(q, select=dict(q["select"], count=False))
                 info2 = check_query(q2, rows, zdir, today, rec)
                 for p, got in info["leaves"].items():
-                    if got and got != [str(len(info2["leaves"].get(p, [])))]:
+                    if got and got != [str(len(info2["leaves"].get(p, [])) + info2["hidden"].get(p, 0))]:
                         raise Violation("count-vs-select", f"{Q.render(q)!r}: group {p} counts {got}, select lists "
-                                        f"{len(info2['leaves'].get(p, []))} entries",
+                                        f"{len(info2['leaves'].get(p, []))} entries (+{info2['hidden'].get(p, 0)} empty)",
                                         case={"dir": case["dir"], "today": case["today"], "queries": [q]})
                 rec.label("count")
             rec.label("select:" + q["select"]["k"])
